@@ -1,4 +1,5 @@
 import SphericalVerif.Gen.Dispatch
+import SphericalVerif.Gen.HKern
 import SphericalVerif.Model.Assemble
 import SphericalVerif.Model.W3j
 import SphericalVerif.Spec.Orderings
@@ -47,6 +48,38 @@ def step (line : String) : String :=
     let hv := (Spec.nmRange L).map (fun t => fb (rd (α := Float) st (.hv t.1.toNat t.2)))
     let hx := (List.range (L+2)).map (fun m => fb (rd (α := Float) st (.hx m)))
     String.intercalate " " wedge ++ " | " ++ String.intercalate " " hv ++ " | " ++ String.intercalate " " hx
+  | ["genH", L, P, c, s, dflt] =>
+    -- the GENERATED kernels (Gen/HKern.lean) on a flat hash-map memory; tables from the generated element formulas
+    let L := L.toNat!; let P := P.toNat!
+    let LI : Int := L
+    let nm := Spec.nmRange (LI+1)
+    let nabsm := Spec.nabsmRange (LI+1)
+    let nanF := Float.ofBits 0x7FF8000000000BAD
+    let tabOf (xs : List Float) : Int → Float :=
+      let arr := xs.toArray
+      fun i => if i < 0 then nanF else arr.getD i.toNat nanF
+    let a := tabOf (nabsm.map (fun t => Gen.tab_a (α := Float) t.1 t.2))
+    let b := tabOf (nm.map (fun t => Gen.tab_b (α := Float) t.1 t.2))
+    let d := tabOf (nm.map (fun t => Gen.tab_d (α := Float) t.1 t.2))
+    let g := tabOf (nm.map (fun t => Gen.tab_g (α := Float) t.1 t.2))
+    let h := tabOf (nm.map (fun t => Gen.tab_h (α := Float) t.1 t.2))
+    let st0 : HFMem Float := { map := ∅, dflt := bf dflt }
+    let st := Gen.Wigner_H (α := Float) (φ := HFMem Float) g h LI P a b d ⟨bf c, bf s⟩ 0 1 2 st0
+    let hsize := (Gen.WignerHsize P LI).toNat
+    let wedge := (List.range hsize).map (fun (i : Nat) => fb (frd (α := Float) st 0 ((i : Nat) : Int)))
+    let hv := (List.range ((L+1)*(L+1))).map (fun (i : Nat) => fb (frd (α := Float) st 1 ((i : Nat) : Int)))
+    let hx := (List.range (L+2)).map (fun (i : Nat) => fb (frd (α := Float) st 2 ((i : Nat) : Int)))
+    String.intercalate " " wedge ++ " | " ++ String.intercalate " " hv ++ " | " ++ String.intercalate " " hx
+  | ["gentables", L] =>
+    let L : Int := L.toNat!
+    let nm := Spec.nmRange (L+1)
+    let nabsm := Spec.nabsmRange (L+1)
+    let a := nabsm.map (fun t => fb (Gen.tab_a (α := Float) t.1 t.2))
+    let b := nm.map (fun t => fb (Gen.tab_b (α := Float) t.1 t.2))
+    let d := nm.map (fun t => fb (Gen.tab_d (α := Float) t.1 t.2))
+    let g := nm.map (fun t => fb (Gen.tab_g (α := Float) t.1 t.2))
+    let h := nm.map (fun t => fb (Gen.tab_h (α := Float) t.1 t.2))
+    String.intercalate " | " ([a, b, d, g, h].map (String.intercalate " "))
   | ["tables", L] =>
     let L : Int := L.toNat!
     let nm := Spec.nmRange (L+1)
